@@ -10,4 +10,9 @@ import sys; sys.path.insert(0, '.')
 from mirsmt.driver import dump_mir
 p, h, dt = dump_mir(); print('MIR dump', p, h, '%.1fs' % dt)
 "
+python3-vt -c "
+import sys; sys.path.insert(0, '.')
+from mirsmt import native
+print('native replay build', native.build())
+"
 echo setup done
